@@ -383,8 +383,10 @@ class Discharger:
                 seen.add(x)
                 st.extend(rev.get(x, ()))
             return seen
-        mut_sites = {f.name for f in fb.all("lib") for _, t in f.calls() if (callee(t) or "").endswith("RefCell::borrow_mut")}
-        any_sites = {f.name for f in fb.all("lib") for _, t in f.calls() if callee(t) in BORROWS}
+        # (replace / swap / take / set borrow the cell mutably for the duration of the call)
+        MOMENTARY = ("RefCell::replace", "RefCell::swap", "RefCell::take", "RefCell::set", "RefCell::replace_with")
+        mut_sites = {f.name for f in fb.all("lib") for _, t in f.calls() if (callee(t) or "").endswith(("RefCell::borrow_mut",) + MOMENTARY)}
+        any_sites = {f.name for f in fb.all("lib") for _, t in f.calls() if callee(t) in BORROWS} | mut_sites
         self.may_borrow_mut = closure(mut_sites)
         self.may_borrow = closure(any_sites)
 
@@ -400,7 +402,7 @@ class Discharger:
     # -------------------------------------------------------------- dispatcher
     def discharge(self, f, b, t, kind, what):
         for rule in (self.d_arity, self.d_arity_user, self.d_dominating_test, self.d_checked_key, self.d_nonempty, self.d_container_variant, self.d_variant_runs,
-                     self.d_table, self.d_counter, self.d_total_cast, self.d_const_index, self.d_front_insert, self.d_front_remove, self.d_bounds, self.d_borrow, self.d_known_arith,
+                     self.d_table, self.d_counter, self.d_total_cast, self.d_const_index, self.d_front_insert, self.d_front_remove, self.d_bounds, self.d_cell_momentary, self.d_borrow, self.d_known_arith,
                      self.d_const_input, self.d_div_guarded, self.d_zero_checked):
             r = rule(f, b, t, kind, what)
             if r is not None:
@@ -600,6 +602,9 @@ class Discharger:
             if self.table_ok and self.choke_ok:
                 return (True, "D-arity-user", "application decision table (12 rows): wrong argument counts are rejected before binding, "
                                               "and binding never takes a missing argument")
+            src_ = self._unwrap_src(f, t)
+            if not src_ or not callee_matches(src_[1], "Iterator>::next", "Iterator::next"):
+                return None             # (not an argument being read: another argument may apply)
             return (False, "D-arity-user", "the application decision table shows a wrong argument count reaching the binding code")
         if kind != "unwrap" or not f.name.startswith(ITP + "apply_scheme_procedure::{closure"):
             return None
@@ -929,6 +934,16 @@ class Discharger:
                                                     "(a container holds at most isize::MAX items)")
                     return None
         return None
+
+    def d_cell_momentary(self, f, b, t, kind, what):
+        """`cell.replace(v)` / `swap` borrow the cell for the duration of the call only: they panic when a guard of the same cell is
+        live.  Guards held by callers are judged at the guard (this function counts as one that may borrow mutably); here: no guard
+        is taken in this function at all."""
+        if kind != "std-panicky" or what not in ("replace", "swap") or "RefCell" not in (callee(t) or ""):
+            return None
+        if any(callee(tt) in BORROWS for _, tt in f.calls()):
+            return None
+        return (True, "D-guard-liveness", "a momentary borrow in a function that holds no guard (guards of callers are judged where they are taken)")
 
     def d_front_remove(self, f, b, t, kind, what):
         """`v.remove(0)` / `v.swap_remove(0)` where a test that v is not empty dominates the site: `!v.is_empty()`, `v.first()` /
